@@ -153,6 +153,16 @@ Dispatch == active /\ Apply(OpFire(Cur, "none"), C("dispatch", 0, "none"))
 \* one iteration of the loop (also after free): the call-back runs iff the watcher is active
 Poll(act) == act \in Acts /\ Apply(IF Fires(Cur) THEN OpFire(Cur, act) ELSE Cur, C("poll", 0, act))
 
+\* one iteration of the loop in which ANOTHER ready watcher's call-back runs first and stops / blocks /
+\* frees this pump: whatever the back-end had already queued for the pump must be cancelled
+Acts2 == {"stop", "block", "free"}
+Poll2(act) ==
+  /\ act \in Acts2 /\ ~freed /\ (act = "block" => blockers # Blockers)
+  /\ LET r1 == CASE act = "stop"  -> OpStop(Cur)
+                  [] act = "block" -> OpBlockerAlloc(Cur, Min(Blockers \ blockers))
+                  [] act = "free"  -> OpFree(Cur)
+     IN Apply(IF Fires(r1) THEN OpFire(r1, "none") ELSE r1, C("poll2", 0, act))
+
 \* a freshly allocated pump of kind k (upump_common_init: not started, status true)
 InitWith(k) ==
   /\ kind = k
@@ -171,6 +181,7 @@ Next ==
   \/ \E b \in Blockers : BlockerFree(b)
   \/ Dispatch
   \/ \E a \in Acts : Poll(a)
+  \/ \E a \in Acts2 : Poll2(a)
   \/ Free
 
 Spec == Init /\ [][Next]_vars
